@@ -355,6 +355,102 @@ pub fn only_vertex_crossings(a: &[(f64, f64)], b: &[(f64, f64)]) -> bool {
     any
 }
 
+/// exact area of a union of discs by Green's theorem over the uncovered boundary arcs
+pub fn union_area(d: &[[f64; 3]]) -> f64 {
+    let two_pi = 2. * PI;
+    let mut area = 0.;
+    for (i, c) in d.iter().enumerate() {
+        let (x, y, r) = (c[0], c[1], c[2]);
+        if r <= 0. {
+            continue;
+        }
+        let mut cuts: Vec<f64> = vec![];
+        let mut covered = false;
+        for (j, o) in d.iter().enumerate() {
+            if i == j {
+                continue;
+            }
+            let (dx, dy) = (o[0] - x, o[1] - y);
+            let dist = (dx * dx + dy * dy).sqrt();
+            if dist + r <= o[2] && (dist > 0. || r < o[2] || j < i) {
+                covered = true; // inside the other disc (ties: the earlier disc keeps the boundary)
+                break;
+            }
+            if dist >= r + o[2] || dist + o[2] <= r || dist == 0. {
+                continue;
+            }
+            let a = ((r * r - o[2] * o[2] + dist * dist) / (2. * dist * r)).max(-1.).min(1.).acos();
+            let base = dy.atan2(dx);
+            cuts.push((base - a).rem_euclid(two_pi));
+            cuts.push((base + a).rem_euclid(two_pi));
+        }
+        if covered {
+            continue;
+        }
+        if cuts.is_empty() {
+            area += PI * r * r;
+            continue;
+        }
+        cuts.sort_by(|a, b| a.partial_cmp(b).unwrap());
+        for k in 0..cuts.len() {
+            let t1 = cuts[k];
+            let t2 = if k + 1 < cuts.len() { cuts[k + 1] } else { cuts[0] + two_pi };
+            if t2 - t1 <= 0. {
+                continue;
+            }
+            let tm = 0.5 * (t1 + t2);
+            let (mx, my) = (x + r * tm.cos(), y + r * tm.sin());
+            let inside_other = d.iter().enumerate().any(|(j, o)| j != i && (mx - o[0]).powi(2) + (my - o[1]).powi(2) < o[2] * o[2]);
+            if inside_other {
+                continue;
+            }
+            area += 0.5 * (r * (x * (t2.sin() - t1.sin()) - y * (t2.cos() - t1.cos())) + r * r * (t2 - t1));
+        }
+    }
+    area
+}
+
+/// D7's class: three discs with a common interior point, or a disc inside another one
+pub fn triple_or_nested(d: &[[f64; 3]]) -> bool {
+    let n = d.len();
+    for i in 0..n {
+        for j in 0..n {
+            if i != j {
+                let dist = ((d[i][0] - d[j][0]).powi(2) + (d[i][1] - d[j][1]).powi(2)).sqrt();
+                if dist + d[i][2] <= d[j][2] * (1. + 1e-12) {
+                    return true;
+                }
+            }
+        }
+    }
+    // three discs share interior points iff a vertex of the lens of two of them (a boundary intersection
+    // point), or the middle of that lens, lies strictly inside a third disc
+    for i in 0..n {
+        for j in (i + 1)..n {
+            let (dx, dy) = (d[j][0] - d[i][0], d[j][1] - d[i][1]);
+            let dist = (dx * dx + dy * dy).sqrt();
+            if dist == 0. || dist >= d[i][2] + d[j][2] || dist <= (d[i][2] - d[j][2]).abs() {
+                continue;
+            }
+            let a = (d[i][2] * d[i][2] - d[j][2] * d[j][2] + dist * dist) / (2. * dist);
+            let h = (d[i][2] * d[i][2] - a * a).max(0.).sqrt();
+            let (px, py) = (d[i][0] + a * dx / dist, d[i][1] + a * dy / dist);
+            let cand = [(px + h * dy / dist, py - h * dx / dist), (px - h * dy / dist, py + h * dx / dist), (px, py)];
+            for k in 0..n {
+                if k == i || k == j {
+                    continue;
+                }
+                for p in cand.iter() {
+                    if (p.0 - d[k][0]).powi(2) + (p.1 - d[k][1]).powi(2) < d[k][2] * d[k][2] * (1. - 1e-12) {
+                        return true;
+                    }
+                }
+            }
+        }
+    }
+    false
+}
+
 fn frac_dist(x: f64) -> f64 {
     (x - x.round()).abs()
 }
@@ -415,6 +511,37 @@ pub fn run_state_case(spec: &Spec, out: &mut dyn Write) -> GeomOut {
     let (cs, sn) = (angle.cos(), angle.sin());
     let items = st.items();
     let (radius, sarea) = st.radius_area();
+    // ---------------- C02: the area of the shape
+    match &items {
+        Items::Segs(v) => {
+            let verts: Vec<(f64, f64)> = v.iter().map(|i| (i[0], i[1])).collect();
+            let mut sh = 0.;
+            for k in 0..verts.len() {
+                let (p, q) = (verts[k], verts[(k + 1) % verts.len()]);
+                sh += p.0 * q.1 - p.1 * q.0;
+            }
+            let want = 0.5 * sh.abs();
+            if (sarea - want).abs() > 1e-9 * want.max(1.) {
+                add(&mut f, "C02", format!("polygon area {:?}, the shoelace formula on its vertices gives {:?}", sarea, want));
+            }
+            // consecutive edges must join up (a closed polygon)
+            for k in 0..v.len() {
+                let (e, s2) = (&v[k], &v[(k + 1) % v.len()]);
+                if (e[2] - s2[0]).abs() > 1e-12 || (e[3] - s2[1]).abs() > 1e-12 {
+                    add(&mut f, "C02,C12", format!("polygon edge {} does not end where edge {} starts", k, (k + 1) % v.len()));
+                    break;
+                }
+            }
+        }
+        Items::Discs(v) => {
+            let want = union_area(v);
+            if !(sarea.is_finite()) || (sarea - want).abs() > 1e-9 * want.max(1.) {
+                let class = if triple_or_nested(v) { " [class=triple-or-nested]" } else { "" };
+                add(&mut f, "C02", format!("molecule area {:?}, the area of the union of its discs is {:?}{}", sarea, want, class));
+            }
+        }
+        _ => {}
+    }
     let rel = st.rel();
     let cart = st.cart();
     let score = catch_unwind(AssertUnwindSafe(|| st.score()));
@@ -671,7 +798,11 @@ pub fn run_state_case(spec: &Spec, out: &mut dyn Write) -> GeomOut {
                     add(&mut f, "C02", format!("score {:?} is not copies * shape area / |A x B| = {:?}", sc, frac));
                 }
                 if !(sc > 0.) || sc > 1. + 1e-9 {
-                    add(&mut f, "C02", format!("packing fraction {:?} outside (0, 1]", sc));
+                    let class = match &items {
+                        Items::Discs(v) if triple_or_nested(v) => " [class=triple-or-nested]",
+                        _ => "",
+                    };
+                    add(&mut f, "C02", format!("packing fraction {:?} outside (0, 1]{}", sc, class));
                 }
             }
         }
